@@ -505,6 +505,7 @@ pixman_composite_trapezoids (pixman_op_t		op,
     if (op == PIXMAN_OP_ADD &&
 	(src->common.flags & FAST_PATH_IS_OPAQUE)		&&
 	(mask_format == dst->common.extended_format_code)	&&
+	!(dst->common.alpha_map)				&&
 	!(dst->common.have_clip_region))
     {
 	for (i = 0; i < n_traps; ++i)
